@@ -79,6 +79,36 @@ def swFeed {Msg} (U : Unpack Msg) (s : CS Msg) (chunk : Bytes) : CS Msg :=
     { buf := b, delivered := d, st := st }
   | _ => s
 
+
+/-- `Connection.read` with message handlers that may disconnect the connection (`D m` = handling `m` marks the
+    connection disconnected: a failed send, a failed handshake, an explicit `disconnect()`).  Since repair C09-2 the
+    loop tests `self.disconnected` at the head of every iteration and throws the connection away. -/
+def ctlLoopD {Msg} (U : Unpack Msg) (D : Msg → Bool) (minLen : Nat) :
+    Nat → Bool → Bytes → Nat → List Msg → Nat × List Msg × Status
+  | 0, _, _, off, acc => (off, acc, .alive)
+  | fuel+1, disc, buf, off, acc =>
+    if buf.length - off < 8 then (off, acc, .alive) else
+    if disc then (off, acc, .closed) else
+    let ty := byteAt buf (off+1)
+    if byteAt buf off ≠ 1 ∧ ty ≠ 0 then (off, acc, .closed) else
+    let n := declLen buf off
+    if n < minLen then (off, acc, .closed) else
+    if buf.length - off < n then (off, acc, .alive) else
+    match U ty buf off with
+    | .raise => (off, acc, .dead)
+    | .none => (off, acc, .dead)
+    | .ok (off', m) =>
+      if off' - off ≠ n ∨ off' < off then (off, acc, .dead)
+      else ctlLoopD U D minLen fuel (D m) buf off' (acc ++ [m])
+
+def ctlFeedD {Msg} (U : Unpack Msg) (D : Msg → Bool) (minLen : Nat) (s : CS Msg) (chunk : Bytes) : CS Msg :=
+  match s.st with
+  | .alive =>
+    let buf := s.buf ++ chunk
+    let (off, d, st) := ctlLoopD U D minLen (buf.length + 1) false buf 0 s.delivered
+    { buf := buf.drop off, delivered := d, st := st }
+  | _ => s
+
 def init {Msg} : CS Msg := { buf := [], delivered := [], st := .alive }
 
 /-- several connections served by one I/O loop: feeding connection `i` -/
